@@ -19,6 +19,9 @@ int v_connect(int, const struct sockaddr *, socklen_t);
 ssize_t v_send(int, const void *, size_t, int);
 int v_close(int);
 int v_access(const char *, int);
+int v_fileno(FILE *);
+int v_ftruncate(int, off_t);
+int v_fsync(int);
 #ifdef feof
 #undef feof
 #endif
@@ -45,6 +48,12 @@ int v_access(const char *, int);
 #define send(...)     v_send(__VA_ARGS__)
 #define close(...)    v_close(__VA_ARGS__)
 #define access(...)   v_access(__VA_ARGS__)
+#ifdef fileno
+#undef fileno
+#endif
+#define fileno(...)   v_fileno(__VA_ARGS__)
+#define ftruncate(...) v_ftruncate(__VA_ARGS__)
+#define fsync(...)    v_fsync(__VA_ARGS__)
 
 /* identity / system (vsys.c) */
 uid_t v_getuid(void); uid_t v_geteuid(void); gid_t v_getgid(void); gid_t v_getegid(void);
